@@ -4,17 +4,12 @@ Concrete worlds used by the `example`s and `…_counterexample` theorems of `Pro
 -/
 namespace MakoModel.Cache
 
-/-- one container, `set` implemented, no context wanted -/
-def exBe : Backend Unit := { regionOf := fun _ => (), passContext := false, hasSet := true }
+/-- one container, no context wanted -/
+def exBe : Backend Unit := { regionOf := fun _ => (), passContext := false }
 
 /-- containers selected by the keyword `type` (what the recording back end and Beaker do) -/
 def exBeType : Backend (Option ArgV) :=
-  { regionOf := fun kw => aGet kw "type".toList, passContext := true, hasSet := true }
-
-/-- mako's Beaker implementation as the translator found it (does it define `set`?) -/
-def exBeBeaker : Backend (Option ArgV) :=
-  { regionOf := fun kw => aGet kw "type".toList, passContext := false,
-    hasSet := MakoModel.Generated.Cache.beakerImplDefinesSet }
+  { regionOf := fun kw => aGet kw "type".toList, passContext := true }
 
 def exPage (cached : Bool) : Hdr :=
   { kind := .page, name := [], line := 0, param := none, cached := cached, buffered := false, filtered := false,
@@ -51,8 +46,6 @@ def exTmF : Tmpl :=
     body := .tick "page".toList (.inv exF (some [.var "x".toList]) false exFBody .nil) }
 
 def exWF : World (Option ArgV) := { be := exBeType, tmpls := [exTmF] }
-
-def exWBeaker : World (Option ArgV) := { be := exBeBeaker, tmpls := [exTmF] }
 
 /-- a nested def `<%def name="g()" cached="True" buffered="True">G</%def>` called as `${g() | wrapS}` -/
 def exG : Hdr :=
